@@ -43,6 +43,17 @@ add(
     "3/C09",
 )
 
+add(
+    "C08",
+    "Bounded symbolic model checking of the real interval code: IntervalItem/OnlyConstraint.applies and "
+    "does_interval_item_apply decide exact closed-interval membership for all real bounds and indices; "
+    "get_axis_slice_from_interval, _get_area and add_model_weight satisfy Inside <= Affected <= Hull(nearest points) "
+    "for all strictly increasing axes of the stated sizes and all finite/infinite/reversed bounds, and monotonicity; "
+    "reduce_matrix/retrieve_clps remove, relate and restore exactly the selected columns; dataset+model weight.",
+    COMMON_NOTE + "Axes strictly increasing; model-weight harness uses concrete axes with symbolic bounds and values.",
+    "3/C08",
+)
+
 ALL = [f"C{i:02d}" for i in range(1, 21)]
 
 
